@@ -147,6 +147,8 @@ def run(rep, tier):
     n = 1600 if tier == "quick" else 40000
     per = 100 if tier == "quick" else 1000
     shards = [("pool", i, per, "release" if i % 2 else "verifdbg") for i in range(n // per)]
+    # leaks that only matter after hundreds or thousands of contained faults on one thread
+    shards += [("pool", 900 + i, 700 if tier == "quick" else 4000, "release" if i % 2 else "verifdbg") for i in range(2)]
     for part in common.pmap(run_shard, shards):
         rep.merge(part)
     rep.extra["exhaustive"] = True
